@@ -60,7 +60,7 @@ def sources(tier, seed, ctx):
     # size boundaries of the word-size computation: gate-free circuits and short NOT chains whose input / gate /
     # output counts sit at powers of two (and next to them), with fewer, as many and more outputs than inputs
     for ni in range(1, 10):
-        for ng in (0, 1, 2, 3, 4, 7, 8, 9) if tier != 'quick' else (0, 1, 4, 8):
+        for ng in (0, 1, 2, 3, 4, 7, 8, 9) if tier != 'quick' else (0, 1, 2, 3, 4, 8):
             if ni + ng > 16:
                 continue
             for no in sorted({0, 1, ni // 2, ni - 1, ni, ni + 1, 2 * ni}):
@@ -76,6 +76,8 @@ def sources(tier, seed, ctx):
         srcs.append({'k': 'bitio', 'seed': rng.randrange(10**9)})
     for j in range(150 if tier == 'quick' else 2000):
         srcs.append({'k': 'dict', 'seed': rng.randrange(10**9)})
+    for kl, vl in [(32767, 3), (32768, 3), (65535, 1), (4, 32767), (4, 32768), (4, 65535), (40000, 50000)]:
+        srcs.append({'k': 'dict', 'seed': rng.randrange(10**9), 'long': [kl, vl]})
     ctx['gen_note'] = '; '.join(note)
     return srcs
 
@@ -181,7 +183,21 @@ def record(src):
             else:
                 key = ''.join(r.choice(alphabet) for _ in range(r.randint(1, 8)))
             d[key] = bytes(r.getrandbits(8) for _ in range(r.choice([0, 1, 2, 5, 255, 256, 300])))
-        enc = lambda dd: [{'k': [ord(ch) for ch in k], 'v': list(v)} for k, v in dd.items()]
+        if src.get('long'):
+            # length prefixes are two bytes: keys / values of 2^15 - 1, 2^15 and 2^16 - 1 bytes
+            kl, vl = src['long']
+            d['k' * kl] = bytes(r.getrandbits(8) for _ in range(vl))
+
+        def short(seq):
+            """long keys / values are compared through their length and a digest (16-bit pieces: TLC integers)"""
+            seq = list(seq)
+            if len(seq) <= 600:
+                return seq
+            import hashlib
+
+            h = hashlib.sha1(bytes(str(seq), 'utf8')).digest()
+            return [-1, len(seq) % 30000, len(seq) // 30000] + [h[j] * 256 + h[j + 1] for j in range(0, 12, 2)]
+        enc = lambda dd: [{'k': short(ord(ch) for ch in k), 'v': short(v)} for k, v in dd.items()]
         case = {'kind': 'dict', 'd': enc(d), 'back': [], 'exc': '', 'trunc': [], 'ext': [], 'src': src}
         try:
             stream = io.BytesIO()
